@@ -97,6 +97,24 @@ Lemma c02_orig_refuted_trace :
   c02_ok (tr (wgo_exec c02_witness_progs (c02_witness_sched ++ [2; 2; 2; 2; 2]%nat))) = false.
 Proof. vm_compute. split; reflexivity. Qed.
 
+(* the count is per goroutine: the spinning Wait is also rejected when its steps are interleaved
+   with stutters of a thread that does not exist (7) and with the steps of another waiter - an
+   earlier version of the monitor counted only ADJACENT steps and accepted these traces *)
+Lemma c02_orig_refuted_interleaved :
+  c02_ok (tr (wgo_exec c02_witness_progs
+                (c02_witness_sched ++ [2; 7; 2; 7; 2; 7; 2; 7; 2; 7; 2; 7]%nat))) = false /\
+  c02_ok (tr (wgo_exec (c02_witness_progs ++ [[CWait]])
+                (c02_witness_sched ++ [2; 3; 2; 3; 2; 3; 2; 3; 2; 3; 2; 3]%nat))) = false.
+Proof. vm_compute. split; reflexivity. Qed.
+
+(* non-vacuity of the step count: a passing trace on which a thread is inside Wait and has made
+   an internal step at rest (the pinned Wait takes two loads) *)
+Lemma c02_wait_steps_example :
+  let t := tr (wgo_exec [[CWait]] [0; 0]%nat) in
+  c02_ok t = true /\ in_call t 0%nat = Some CWait /\ rest_steps t 0%nat = 1%nat /\
+  c02_ok (tr (wgo_exec [[CWait]] [0; 0; 0]%nat)) = true.
+Proof. vm_compute. repeat split; reflexivity. Qed.
+
 (* the repaired machine on the same two witnesses *)
 Lemma witnesses_pass_now :
   c01_ok (tr (wg_exec c01_witness_progs c01_witness_sched)) = true /\
